@@ -1300,11 +1300,19 @@ class Controller:
     ############################################################
     def on_hci_command(
         self, command: hci.HCI_Command
-    ) -> hci.HCI_StatusReturnParameters:
+    ) -> hci.HCI_StatusReturnParameters | None:
         logger.warning(color(f'--- Unsupported command {command}', 'red'))
-        return hci.HCI_StatusReturnParameters(
-            hci.HCI_ErrorCode.UNKNOWN_HCI_COMMAND_ERROR
+        if isinstance(command, hci.HCI_SyncCommand):
+            return hci.HCI_StatusReturnParameters(
+                hci.HCI_ErrorCode.UNKNOWN_HCI_COMMAND_ERROR
+            )
+
+        # Asynchronous and unknown commands have no return parameters: they are
+        # answered with a Command Status event.
+        self._send_hci_command_status(
+            hci.HCI_ErrorCode.UNKNOWN_HCI_COMMAND_ERROR, command.op_code
         )
+        return None
 
     def on_hci_create_connection_command(
         self, command: hci.HCI_Create_Connection_Command
